@@ -1,7 +1,7 @@
 (* One entry point for the extracted model: [run cmd args] returns the result fields.
    The OCaml driver only splits lines, (un)escapes and converts strings. *)
 From Coq Require Import List Bool NArith String Ascii.
-From PC Require Import Base.Cmp Model.Pep440 Spec.Pep440Spec.
+From PC Require Import Base.Cmp Base.Result Model.Pep440 Spec.Pep440Spec Model.VConstraint.
 Import ListNotations.
 Open Scope string_scope.
 Open Scope N_scope.
@@ -127,8 +127,81 @@ Definition run_pep440 (cmd : string) (args : list string) : option (list string)
     | _ => None end
   else None.
 
+(* ---------------- version constraints ---------------- *)
+Definition err_str (e : err) : string :=
+  match e with
+  | EAssert => "AssertionError" | EValue => "ValueError" | EIndex => "IndexError" | EKey => "KeyError"
+  | EAttr => "AttributeError" | EType => "TypeError" | ERuntime => "RuntimeError"
+  | EParseConstraint => "ParseConstraintError" | EInvalidVersion => "InvalidVersionError"
+  | EInvalidMarker => "InvalidMarkerError" | EUndefinedComparison => "UndefinedComparison"
+  | EUndefinedEnvName => "UndefinedEnvironmentName" | ERecursion => "RecursionError"
+  | EOutOfFuel => "OutOfFuel" end.
+Definition repr_ver (v : version) : string := vrepr v ++ "~" ++ text v.
+Definition repr_over (o : option version) : string := match o with Some v => repr_ver v | None => "-" end.
+Definition repr_rng (r : rng) : string :=
+  match r with
+  | RV v => "V:" ++ repr_ver v
+  | RR lo hi a b => "R:" ++ repr_over lo ++ "|" ++ repr_over hi ++ "|" ++ (if a then "1" else "0") ++ (if b then "1" else "0")
+  end.
+Definition crepr (c : vc) : string :=
+  match c with
+  | VEmpty => "E"
+  | VOne r => repr_rng r
+  | VUnion l => "U:" ++ sjoin " ;; " (map repr_rng l)
+  end.
+(* a constraint arrives as the clause lists of the implementation's own split:
+   groups separated by byte 30, clauses by byte 31 *)
+Definition spec_groups (s : string) : list (list string) :=
+  map (fun g => map str (split_on (ascii_of_N 31) g)) (split_on (ascii_of_N 30) (lchars s)).
+Definition cparse (m : bool) (s : string) : res vc := parse_constraint_groups m (spec_groups s).
+Definition rshow {A} (f : A -> list string) (r : res A) : list string :=
+  match r with Ok a => "ok" :: f a | Err e => ["err"; err_str e] end.
+Definition rbool (r : res bool) : string :=
+  match r with Ok true => "1" | Ok false => "0" | Err e => "e:" ++ err_str e end.
+Definition probe_allows (c : vc) (p : string) : string :=
+  match parse p with Some v => rbool (allows c v) | None => "badprobe" end.
+Definition describe (c : vc) : list string :=
+  [crepr c; match vc_str c with Ok s => s | Err e => "e:" ++ err_str e end;
+   show_bool (is_empty c); show_bool (is_any c); rbool (is_simple c)].
+Definition binop (name : string) (a b : vc) : option (res vc) :=
+  if seq name "intersect" then Some (intersect a b) else
+  if seq name "union" then Some (union a b) else
+  if seq name "difference" then Some (difference a b) else None.
+
+Definition run_vc (cmd : string) (args : list string) : option (list string) :=
+  if seq cmd "cparse" then
+    match args with
+    | m :: s :: probes =>
+      Some match cparse (seq m "1") s with
+           | Ok c => "ok" :: describe c ++ map (probe_allows c) probes
+           | Err e => ["err"; err_str e] end
+    | _ => None end
+  else if seq cmd "cbin" then
+    match args with
+    | name :: sa :: sb :: probes =>
+      Some match cparse false sa, cparse false sb with
+           | Ok a, Ok b =>
+             match binop name a b with
+             | Some (Ok c) => "ok" :: describe c ++ map (probe_allows c) probes
+             | Some (Err e) => ["err"; err_str e]
+             | None => ["badop"] end
+           | _, _ => ["badoperand"] end
+    | _ => None end
+  else if seq cmd "cpred" then
+    match args with
+    | [sa; sb] =>
+      Some match cparse false sa, cparse false sb with
+           | Ok a, Ok b => [show_bool (allows_all a b); rbool (allows_any a b)]
+           | _, _ => ["badoperand"] end
+    | _ => None end
+  else None.
+
 Definition run (cmd : string) (args : list string) : list string :=
   match run_pep440 cmd args with
   | Some r => r
-  | None => ["unknown-command"]
+  | None =>
+    match run_vc cmd args with
+    | Some r => r
+    | None => ["unknown-command"]
+    end
   end.
